@@ -159,7 +159,10 @@ func (h *HandlerSet) HandleCheckComplexity(ctx context.Context, request mcp.Call
 	}
 
 	// Parse optional parameters
-	cfg := h.deps.Config()
+	cfg, configPath, err := h.deps.ConfigFor(path)
+	if err != nil {
+		return mcp.NewToolResultError(fmt.Sprintf("failed to load configuration: %v", err)), nil
+	}
 
 	minComplexity := 1
 	if cfg != nil && cfg.Output.MinComplexity > 0 {
@@ -231,7 +234,7 @@ func (h *HandlerSet) HandleCheckComplexity(ctx context.Context, request mcp.Call
 		SortBy:          sortBy,
 		IncludePatterns: includePatterns,
 		ExcludePatterns: excludePatterns,
-		ConfigPath:      h.deps.ConfigPath(),
+		ConfigPath:      configPath,
 	}
 
 	// Build use case with all required dependencies
@@ -302,7 +305,10 @@ func (h *HandlerSet) HandleDetectClones(ctx context.Context, request mcp.CallToo
 	}
 
 	// Load defaults from configuration
-	cfg := h.deps.Config()
+	cfg, configPath, err := h.deps.ConfigFor(path)
+	if err != nil {
+		return mcp.NewToolResultError(fmt.Sprintf("failed to load configuration: %v", err)), nil
+	}
 	req := domain.DefaultCloneRequest()
 	if cfg != nil && cfg.Clones != nil {
 		req.SimilarityThreshold = cfg.Clones.Thresholds.SimilarityThreshold
@@ -349,7 +355,7 @@ func (h *HandlerSet) HandleDetectClones(ctx context.Context, request mcp.CallToo
 	// Preserve MinNodes from defaults/config
 	req.OutputFormat = domain.OutputFormatJSON
 	req.OutputWriter = io.Discard
-	req.ConfigPath = h.deps.ConfigPath()
+	req.ConfigPath = configPath
 
 	// Build use case with all required dependencies
 	cloneService := service.NewCloneService()
@@ -418,12 +424,15 @@ func (h *HandlerSet) HandleCheckCoupling(ctx context.Context, request mcp.CallTo
 		return mcp.NewToolResultError(fmt.Sprintf("path does not exist: %s", path)), nil
 	}
 
-	cfg := h.deps.Config()
+	cfg, configPath, err := h.deps.ConfigFor(path)
+	if err != nil {
+		return mcp.NewToolResultError(fmt.Sprintf("failed to load configuration: %v", err)), nil
+	}
 	req := domain.DefaultCBORequest() // Already sets LowThreshold and MediumThreshold from domain defaults
 	req.Paths = []string{path}
 	req.OutputFormat = domain.OutputFormatJSON
 	req.OutputWriter = io.Discard
-	req.ConfigPath = h.deps.ConfigPath()
+	req.ConfigPath = configPath
 	req.SortBy = domain.SortByCoupling
 	// Left unset so that the [cbo] section of the configuration file applies
 	req.ShowZeros = nil
@@ -513,12 +522,15 @@ func (h *HandlerSet) HandleCheckCohesion(ctx context.Context, request mcp.CallTo
 		return mcp.NewToolResultError(fmt.Sprintf("path does not exist: %s", path)), nil
 	}
 
-	cfg := h.deps.Config()
+	cfg, configPath, err := h.deps.ConfigFor(path)
+	if err != nil {
+		return mcp.NewToolResultError(fmt.Sprintf("failed to load configuration: %v", err)), nil
+	}
 	req := &domain.LCOMRequest{
 		Paths:           []string{path},
 		OutputFormat:    domain.OutputFormatJSON,
 		OutputWriter:    io.Discard,
-		ConfigPath:      h.deps.ConfigPath(),
+		ConfigPath:      configPath,
 		SortBy:          domain.SortByCohesion,
 		LowThreshold:    0, // Zero: let config file values take precedence via merge
 		MediumThreshold: 0, // Zero: let config file values take precedence via merge
@@ -602,7 +614,10 @@ func (h *HandlerSet) HandleFindDeadCode(ctx context.Context, request mcp.CallToo
 	}
 
 	// Parse min_severity
-	cfg := h.deps.Config()
+	cfg, configPath, err := h.deps.ConfigFor(path)
+	if err != nil {
+		return mcp.NewToolResultError(fmt.Sprintf("failed to load configuration: %v", err)), nil
+	}
 	minSeverity := domain.DeadCodeSeverityWarning
 	if cfg != nil {
 		switch cfg.DeadCode.MinSeverity {
@@ -631,7 +646,7 @@ func (h *HandlerSet) HandleFindDeadCode(ctx context.Context, request mcp.CallToo
 		OutputFormat: domain.OutputFormatJSON,
 		OutputWriter: io.Discard,
 		SortBy:       domain.DeadCodeSortBySeverity,
-		ConfigPath:   h.deps.ConfigPath(),
+		ConfigPath:   configPath,
 	}
 	if cfg != nil {
 		req.Recursive = cfg.Analysis.Recursive
